@@ -301,10 +301,13 @@ def run(rep: Report, prog: Program, tier: str) -> None:
         elif kind == "duplicates and late copies":
             base = [(seq0 + i, 160 * i, 0.02 * i) for i in range(24) if i not in (5, 11)]
             pk = base[:10] + [(seq0 + 5, 800, 0.21)] + base[10:16] + [base[12]] + base[16:] + [(seq0 + 11, 1760, 0.49)]
+        elif kind == "late copy of the newest packet":
+            base = [(seq0 + i, 160 * i, 0.02 * i) for i in range(24)]
+            pk = base[:11] + [(seq0 + 10, 1600, 0.213)] + base[11:20] + [(seq0 + 19, 3040, 0.391), (seq0 + 19, 3040, 0.395)] + base[20:]
         elif kind == "several frames per timestamp":
             pk = [(seq0 + i, 3000 * (i // 3), 0.011 * i) for i in range(30)]
         return [(s % 65536, (t + ts0) % (1 << 32), n) for s, t, n in pk]
-    for kind, seq0 in itertools.product(("in order, steady", "in order, jittered arrival", "losses", "duplicates and late copies", "several frames per timestamp"), (7, 65500)):
+    for kind, seq0 in itertools.product(("in order, steady", "in order, jittered arrival", "losses", "duplicates and late copies", "late copy of the newest packet", "several frames per timestamp"), (7, 65500)):
         arr = make_seq(kind, seq0, 0 if seq0 == 7 else (1 << 32) - 1000)
         # the reference works on unwrapped numbers
         unwrapped = []
